@@ -45,7 +45,7 @@ def groups():
     for K, tier in ((8, 'quick'), (24, 'thorough')):
         sfx = '' if tier == 'quick' else f'_K{K}'
         for fn in ('breakpoint', 'removeTopPotBreak', 'advanceLine'):
-            gs.append(Group('genB_' + fn + sfx, ['C08', 'C07'], f'GenState::{fn} (Compiler/src/gen.cpp)', 'c_' + fn,
+            gs.append(Group('genB_' + fn + sfx, ['C08', 'C07', 'C05', 'C06'], f'GenState::{fn} (Compiler/src/gen.cpp)', 'c_' + fn,
                             _gen_build('gen_tbl.c', fn, cdefs=[f'TBL_CAP={K}']), timeout=1800, tier=tier, bounded=BND % K))
     for fn in ('strToInt', 'strToIntSilent'):
         gs.append(Group('gen_' + fn, ['C20', 'C04', 'C02'], f'{fn} (Compiler/src/gen.cpp)', 'c_' + fn, _gen_build('gen_misc.c', fn), timeout=600))
